@@ -256,4 +256,86 @@ theorem pyTolerated_iff (src dst : PyFmt.Result) (hs : MapWf src.map) (omittedOk
     simp only [hu]
     exact ⟨ho, by simpa using hall⟩
 
+/-! ## the named signature in terms of the specifications the scanner reads -/
+
+theorem valueAt_of_mem_nodup {κ ν : Type} [DecidableEq κ] : ∀ {m : Named κ ν} {k : κ} {v : ν},
+    (m.map (·.1)).Nodup → (k, v) ∈ m → valueAt m k = some v
+  | [], _, _, _, h => by cases h
+  | (k', v') :: rest, k, v, hn, h => by
+    simp only [List.map_cons, List.nodup_cons] at hn
+    simp only [valueAt]
+    rcases List.mem_cons.1 h with heq | hmem
+    · cases heq; simp
+    · have hne : k' ≠ k := by
+        intro hk
+        subst hk
+        exact hn.1 (List.mem_map.2 ⟨(k', v), hmem, rfl⟩)
+      simp only [hne, ↓reduceIte]
+      exact valueAt_of_mem_nodup hn.2 hmem
+
+/-- **The named signature is the set of (key, type) of the named specifications read**: for an accepted string, key `k` has type
+    `t` iff some specification `%(k)…` of the string has type `t` (`log` = the `(key, conversion)` records in reading order). -/
+theorem pyNamed_iff_log {s : List Char} {r : PyFmt.Result} (h : PyFmt.parse s = .ok r) :
+    ∃ st, PyFmt.loop true (s.length + 1) s [] PyFmt.St.init = .ok st ∧
+      ∀ k t, valueAt (pyNamed r) k = some t ↔ ∃ e, (k, e) ∈ st.map ∧ e.type = t := by
+  obtain ⟨st, hl, _, hm, hall⟩ := PyFmt.parse_loop h
+  refine ⟨st, hl, fun k t => ?_⟩
+  unfold pyNamed
+  rw [get_viewOf, hm]
+  have hwf := groups_wf st.map
+  constructor
+  · intro hv
+    cases hg : valueAt (PyFmt.groups st.map) k with
+    | none => rw [hg] at hv; cases hv
+    | some es =>
+      rw [hg] at hv
+      simp only [Option.map_some, Option.some.injEq] at hv
+      have hmem := get_mem hg
+      obtain ⟨hes, _⟩ := PyFmt.groups_spec hmem
+      cases es with
+      | nil => exact absurd rfl (hwf.2 _ hmem)
+      | cons e0 rest =>
+        have he0 : e0 ∈ (st.map.filter (fun p => p.1 == k)).map (·.2) := by rw [← hes]; simp
+        obtain ⟨p, hp, rfl⟩ := List.mem_map.1 he0
+        have hp' := List.mem_filter.1 hp
+        have hk : p.1 = k := by simpa using hp'.2
+        exact ⟨p.2, by rw [← hk]; exact hp'.1, hv⟩
+  · rintro ⟨e, he, rfl⟩
+    obtain ⟨es, hes, hin⟩ := PyFmt.groups_mem he
+    rw [valueAt_of_mem_nodup hwf.1 hes]
+    simp only [Option.map_some, Option.some.injEq]
+    cases es with
+    | nil => cases hin
+    | cons e0 rest =>
+      simp only [pyHeadType]
+      have hsame : PyFmt.sameType (e0 :: rest) = true := by
+        have := List.all_eq_true.1 hall (k, e0 :: rest) hes
+        simpa using this
+      rcases List.mem_cons.1 hin with rfl | hr
+      · rfl
+      · simp only [PyFmt.sameType, List.all_eq_true, beq_iff_eq] at hsame
+        exact (hsame e hr).symm
+
+/-- two accepted strings whose named specifications carry the same (key, type) pairs — in any order, any multiplicity — have
+    the same named signature -/
+theorem sameNamed_of_logs {s s' : List Char} {r r' : PyFmt.Result} (h : PyFmt.parse s = .ok r) (h' : PyFmt.parse s' = .ok r')
+    {st st' : PyFmt.St} (hl : PyFmt.loop true (s.length + 1) s [] PyFmt.St.init = .ok st)
+    (hl' : PyFmt.loop true (s'.length + 1) s' [] PyFmt.St.init = .ok st')
+    (hsame : ∀ k t, (∃ e, (k, e) ∈ st.map ∧ e.type = t) ↔ (∃ e, (k, e) ∈ st'.map ∧ e.type = t)) :
+    SameNamed (· = ·) (pyNamed r) (pyNamed r') := by
+  obtain ⟨st1, hl1, hiff⟩ := pyNamed_iff_log h
+  obtain ⟨st2, hl2, hiff'⟩ := pyNamed_iff_log h'
+  rw [hl] at hl1; cases hl1
+  rw [hl'] at hl2; cases hl2
+  constructor
+  · intro k
+    rw [← get_isSome_iff, ← get_isSome_iff]
+    constructor
+    · rintro ⟨v, hv⟩; exact ⟨v, (hiff' k v).2 ((hsame k v).1 ((hiff k v).1 hv))⟩
+    · rintro ⟨v, hv⟩; exact ⟨v, (hiff k v).2 ((hsame k v).2 ((hiff' k v).1 hv))⟩
+  · intro k a b ha hb
+    have := (hiff' k a).2 ((hsame k a).1 ((hiff k a).1 ha))
+    rw [hb] at this
+    exact (Option.some.inj this).symm
+
 end I18n.FmtCheck
